@@ -120,7 +120,7 @@ def spec_eval(T, mode, pres, call, res, st):
                 expect_fail = True if fl & G.STRICT else None
             elif not (bad_flags or bad_policy) and not (fl & G.STRICT):
                 expect_fail = None
-        if cmd == "samb" and ln == 0 and bynode and not (bad_flags or bad_policy):
+        if cmd == "samb" and ln == 0 and (bynode or not bad_set) and not (bad_flags or bad_policy):
             expect_fail = False
         if expect_fail is True and not (failed and res["errno"] == "EINVAL"):
             bad.append(("reject-rc:" + cmd, "invalid arguments but rc=%d errno=%s" % (res["rc"], res["errno"])))
